@@ -98,6 +98,7 @@ def _canary_skip_auth_when_enc():
 
 @harness(pre=['0 <= perm <= 255 and 0 <= s0 <= 255 and 0 <= s1 <= 255 and s0 != s1'], family='read-gate', kernels=K, timeout=(40, 120),
          grids=[(('quick',), {'op': list(_READ_OPS), 'target': ['value'], 'eatt': [0]}),
+                (('quick',), {'op': ['read', 'multi_last'], 'target': ['descriptor'], 'eatt': [1]}),
                 (('thorough',), {'op': list(_READ_OPS), 'target': ['value', 'descriptor'], 'eatt': [0, 1]})],
          canaries=[('auth-check-skipped-when-encryption-flag-set', _canary_skip_auth_when_enc)],
          bounds='every reading operation and parameter form x all 256 permission masks x link {plain, encrypted, authenticated, both} (symbolic) x two different secrets (symbolic first byte); quick: characteristic value on the fixed bearer, thorough: + descriptor, + enhanced bearer')
@@ -138,7 +139,7 @@ def find_by_type_value_gate(perm: int, enc: bool, auth: bool, s0: int, s1: int) 
 
 
 @harness(pre=['0 <= perm <= 255 and 0 <= v0 <= 255 and 0 <= old <= 255'], family='write-gate', kernels=K, timeout=(40, 120), twin=True,
-         grids=[(('quick',), {'op': ['request', 'command'], 'target': ['value'], 'eatt': [0]}),
+         grids=[(('quick',), {'op': ['request', 'command'], 'target': ['value'], 'eatt': [0, 1]}),
                 (('thorough',), {'op': ['request', 'command'], 'target': ['value', 'descriptor'], 'eatt': [0, 1]})],
          bounds='Write Request / Write Command x all 256 permission masks x link state (symbolic): value changes iff writing is allowed; refused request -> error response')
 def write_gate(perm: int, enc: bool, auth: bool, v0: int, old: int, op: str, target: str, eatt: int) -> bool:
@@ -174,3 +175,35 @@ def declarations_do_not_leak(s0: int, s1: int, gt: int) -> bool:
     r0, _ = _serve(0, _B(s0, 7), False, False, build)
     r1, _ = _serve(0, _B(s1, 7), False, False, build)
     return len(r0) == 1 and r0 == r1 and r0[0][0] in (0x11, 0x09)
+
+
+@harness(pre=['0 <= perm <= 255 and 0 <= s0 <= 255 and 0 <= s1 <= 255 and s0 != s1'], family='read-gate', kernels=K, timeout=(60, 200),
+         grids=[(('quick',), {'first': ['read', 'blob0'], 'op': ['blob1', 'read', 'multi_last']}),
+                (('thorough',), {'first': ['read', 'blob0', 'bytype', 'multi_first'], 'op': list(_READ_OPS)})],
+         bounds='history: a fully entitled peer (encrypted + authenticated link) first performs one reading operation on the same server, then another peer on a link with symbolic security state performs the probed operation; long (30-byte) value; two-run non-interference as in read_gate')
+def read_gate_after_entitled_access(perm: int, enc: bool, auth: bool, s0: int, s1: int, first: str, op: str) -> bool:
+    enc = True if enc else False
+    auth = True if auth else False
+
+    def run(secret):
+        with untraced():
+            rw = int(P.READABLE | P.WRITEABLE)
+            ch = gatt.Characteristic(U(0x2A00), PR.READ | PR.WRITE, rw, b'')
+            pub = gatt.Characteristic(U(0x2A01), PR.READ, int(P.READABLE), b'pub')
+            dev, server = make_server([ch, pub])
+        ch.value = secret
+        ch.permissions = perm
+        trusted = StubBearer(23, handle=1, enc=True, auth=True)
+        other = StubBearer(23, handle=2, enc=enc, auth=auth)
+        with detloop.running() as loop:
+            feed(server, trusted, bytes(_READ_OPS[first](ch, pub)), loop)
+            n = len(dev.sent)
+            feed(server, other, bytes(_READ_OPS[op](ch, pub)), loop)
+        return [p for h, p in dev.sent[n:]]
+    tail = bytes(range(1, 30))
+    r0, r1 = run(_B(s0) + tail), run(_B(s1) + tail)
+    if len(r0) != 1 or len(r1) != 1:
+        return False
+    if allowed_read(perm, enc, auth) or perm % 2 == 0:
+        return True          # allowed, or the recorded READABLE finding (checked by read_gate)
+    return r0[0] == r1[0]
